@@ -412,7 +412,20 @@ func replayC13(e *emitter, kind string, f []string) {
 	defer os.RemoveAll(env.tmp)
 	switch kind {
 	case "det":
-		gens, derr := env.askDriver([]string{"complete\t" + f[0] + "\t" + f[1]})
+		// the outcome of a WaitGreeting select after the reader has ended (entry 100+thread) is
+		// the runtime's choice: replay the schedule up to there and let the model complete it
+		pre := strings.Split(f[1], ",")
+		for i, t := range pre {
+			if len(t) >= 3 {
+				pre = pre[:i]
+				break
+			}
+		}
+		prefix := strings.Join(pre, ",")
+		if prefix == "" {
+			prefix = "-"
+		}
+		gens, derr := env.askDriver([]string{"complete\t" + f[0] + "\t" + prefix})
 		if derr != nil {
 			e.emit("build", "driver", oneLine(derr.Error()))
 			return
